@@ -57,6 +57,26 @@ func base(kind, sfx string) *schema {
 	case "map":
 		s.root = &idl.Struct{Cat: "struct", Name: "Root" + sfx, Fields: []*idl.Field{fld(1, "m", idl.MapOf(str, idl.StructT(inner)), idl.ReqDefault), fld(2, "a", i32, idl.ReqDefault)}}
 		s.structs = []*idl.Struct{inner, s.root}
+	case "empty": // a root without any field
+		s.root = &idl.Struct{Cat: "struct", Name: "Root" + sfx}
+		s.structs = []*idl.Struct{s.root}
+	case "nested0", "list0", "map0": // the inner struct has no field
+		inner = &idl.Struct{Cat: "struct", Name: "Inner" + sfx}
+		switch kind {
+		case "nested0":
+			s.root = &idl.Struct{Cat: "struct", Name: "Root" + sfx, Fields: []*idl.Field{fld(1, "a", i32, idl.ReqDefault), fld(2, "in", idl.StructT(inner), idl.ReqOptional), fld(3, "din", idl.StructT(inner), idl.ReqDefault)}}
+		case "list0":
+			s.root = &idl.Struct{Cat: "struct", Name: "Root" + sfx, Fields: []*idl.Field{fld(1, "l", idl.ListOf(idl.StructT(inner)), idl.ReqDefault), fld(2, "a", i32, idl.ReqDefault)}}
+		default:
+			s.root = &idl.Struct{Cat: "struct", Name: "Root" + sfx, Fields: []*idl.Field{fld(1, "m", idl.MapOf(str, idl.StructT(inner)), idl.ReqDefault)}}
+		}
+		s.structs = []*idl.Struct{inner, s.root}
+	case "union0": // a union without any member and an exception without any field
+		u := &idl.Struct{Cat: "union", Name: "U" + sfx}
+		e := &idl.Enum{Name: "E" + sfx, Values: []*idl.EnumValue{{Name: "A"}, {Name: "B"}}}
+		s.root = &idl.Struct{Cat: "struct", Name: "Root" + sfx, Fields: []*idl.Field{fld(1, "u", idl.StructT(u), idl.ReqOptional), fld(2, "e", idl.EnumT(e), idl.ReqDefault)}}
+		s.structs = []*idl.Struct{u, s.root}
+		s.enums = []*idl.Enum{e}
 	case "union":
 		e := &idl.Enum{Name: "E" + sfx, Values: []*idl.EnumValue{{Name: "A"}, {Name: "B"}}}
 		u := &idl.Struct{Cat: "union", Name: "U" + sfx, Fields: []*idl.Field{fld(1, "n", i32, idl.ReqDefault), fld(2, "s", str, idl.ReqDefault)}}
@@ -237,7 +257,7 @@ func main() {
 			file.Add(st)
 		}
 	}
-	kinds := []string{"flat", "nested", "list", "map", "union"}
+	kinds := []string{"flat", "nested", "list", "map", "union", "empty", "nested0", "list0", "map0", "union0"}
 	olds := map[string]*schema{}
 	for _, k := range kinds {
 		olds[k] = base(k, "_old_"+k)
@@ -248,9 +268,15 @@ func main() {
 	applicable := func(k string, e edit) bool {
 		switch e.target {
 		case "Inner":
-			return k == "nested" || k == "list" || k == "map"
-		case "U", "E":
+			return k == "nested" || k == "list" || k == "map" || k == "nested0" || k == "list0" || k == "map0"
+		case "U":
+			return k == "union" || k == "union0"
+		case "E":
 			return k == "union"
+		}
+		// zero-field bases: a representative subset of the field classes is enough for the root
+		if k == "empty" || k == "nested0" || k == "list0" || k == "map0" || k == "union0" {
+			return strings.Contains(e.desc, "-i32-") || strings.Contains(e.desc, "-string-") || strings.Contains(e.desc, "-struct-") || strings.Contains(e.desc, "-list_struct-") || strings.Contains(e.desc, "-map_string_i64-")
 		}
 		return true
 	}
@@ -309,6 +335,59 @@ func main() {
 				}
 			}
 			dom = d2
+		}
+		// an added list / set / map with more elements than any nesting budget (70)
+		for _, e := range v.edits {
+			if e.target != "Root" || len(dom) == 0 {
+				continue
+			}
+			var added *idl.Field
+			for _, f := range v.new.root.Fields {
+				if f.Name == "added" {
+					added = f
+				}
+			}
+			if added == nil {
+				continue
+			}
+			ft := added.Type.Final()
+			if ft.Kind != idl.List && ft.Kind != idl.Set && ft.Kind != idl.Map {
+				continue
+			}
+			big := dom[len(dom)-1].Clone()
+			var bv *refsem.Val
+			switch ft.Kind {
+			case idl.List, idl.Set:
+				bv = refsem.List()
+				ed := refsem.Domain(ft.Elem, 1, false)
+				for i := 0; i < 70; i++ {
+					x := ed[i%len(ed)]
+					if ft.Kind == idl.Set || ft.Elem.Final().Kind == idl.I32 {
+						switch ft.Elem.Final().Kind {
+						case idl.I32, idl.I16, idl.I64, idl.Byte:
+							x = refsem.Int(int64(i))
+						case idl.String:
+							x = refsem.Str(fmt.Sprintf("e%02d", i))
+						}
+					}
+					bv.L = append(bv.L, x)
+				}
+			case idl.Map:
+				bv = refsem.Map()
+				vd := refsem.Domain(ft.Elem, 1, false)
+				for i := 0; i < 70; i++ {
+					var k *refsem.Val
+					switch ft.Key.Final().Kind {
+					case idl.String:
+						k = refsem.Str(fmt.Sprintf("k%02d", i))
+					default:
+						k = refsem.Int(int64(i))
+					}
+					bv.M = append(bv.M, [2]*refsem.Val{k, vd[i%len(vd)]})
+				}
+			}
+			big.Set(added.ID, bv)
+			dom = append(dom, big)
 		}
 		for _, val := range dom {
 			c := refsem.Complete(v.new.root, val)
